@@ -61,6 +61,25 @@ def rule_full(repo, rep):
             'derived' if ok else 'refuted', site(f, w),
             '' if ok else '%s is updated by %s without `satisfy`'
             % (old, txt))
+  # the feasibility flag is reset at the start of every cycle
+  resets = [n for n in ast.walk(f.node) if isinstance(n, ast.Assign) and
+            ast.unparse(n.targets[0]) == 'satisfy' and
+            isinstance(n.value, ast.Constant) and n.value.value is False]
+  pm_ = astutil.parents(f.node)
+  cyc = [n for n in ast.walk(f.node) if isinstance(n, ast.For) and
+         any(isinstance(x, ast.Assign) and
+             ast.unparse(x.targets[0]) == '%s[:]' % old
+             for x in ast.walk(n))]
+  outer = None
+  for c_ in cyc:
+    if outer is None or c_.lineno < outer.lineno:
+      outer = c_
+  per_cycle = outer is not None and any(r in outer.body for r in resets)
+  rep.add(R, 'mmc._BaseMMC._fit_full:satisfy-reset', 'derived' if per_cycle
+          else 'refuted', site(f, resets[0]) if resets else site(f),
+          '' if per_cycle else 'satisfy is not reset to False at the start '
+          'of every cycle: a projection that ran out of max_proj steps is '
+          'still accepted as feasible')
   # satisfy = True
   sats = [n for n in ast.walk(f.node) if isinstance(n, ast.Assign) and
           ast.unparse(n.targets[0]) == 'satisfy' and
@@ -225,6 +244,36 @@ def rule_init_flow(repo, rep):
                      if isinstance(x, ast.Name)]
   hundredth = txt.endswith('/ 100.0') or txt.endswith('/ 100') or \
       '* 0.01' in txt
+  # the quantity divided: sum over similar pairs of d^T A d  (= w . vec(A))
+  num = t.value.left if isinstance(t.value, ast.BinOp) else t.value
+  ntxt = ast.unparse(num)
+  forms = {'w.dot(%s.ravel())' % Aname, 'np.dot(w, %s.ravel())' % Aname,
+           '%s.ravel().dot(w)' % Aname,
+           "np.einsum('ij,jk,ik', pos_diff, %s, pos_diff)" % Aname,
+           "np.einsum('ij,jk,ik->', pos_diff, %s, pos_diff)" % Aname,
+           'np.sum(pos_diff.dot(%s) * pos_diff)' % Aname}
+  wdef = [v for (n_, v) in guards.assignments(f.node, 'w') if v is not None]
+  w_ok = wdef and ast.unparse(wdef[0]) in (
+      "np.einsum('ij,ik->jk', pos_diff, pos_diff).ravel()",
+      'pos_diff.T.dot(pos_diff).ravel()',
+      'np.dot(pos_diff.T, pos_diff).ravel()')
+  if ntxt in forms and (w_ok or 'w' not in ntxt.split('(')[0:1] + [ntxt[:2]]):
+    rep.derived(R, 'mmc._BaseMMC._fit_full:budget-form', site(f, t))
+  elif isinstance(num, ast.Call) and ast.unparse(num.func).endswith(
+          'einsum') and num.args and isinstance(num.args[0], ast.Constant):
+    ops = str(num.args[0].value).split('->')[0].split(',')
+    diag = [o for o in ops if len(set(o)) < len(o)]
+    if diag:
+      rep.refuted(R, 'mmc._BaseMMC._fit_full:budget-form', site(f, t),
+                  'the budget uses einsum %r: operand %r takes only a '
+                  'diagonal, so off-diagonal entries of the initial matrix '
+                  'are ignored' % (num.args[0].value, diag[0]))
+    else:
+      rep.unknown(R, 'mmc._BaseMMC._fit_full:budget-form', site(f, t),
+                  'budget expression %s not recognised' % ntxt)
+  else:
+    rep.unknown(R, 'mmc._BaseMMC._fit_full:budget-form', site(f, t),
+                'budget expression %s not recognised' % ntxt)
   before = not first_w or t.lineno < first_w[0].lineno
   ok = uses_A and hundredth and before
   rep.add(R, 'mmc._BaseMMC._fit_full:budget', 'derived' if ok else 'refuted',
